@@ -80,6 +80,24 @@ def run(ctx):
     layers, tagged = 0, info
     while isinstance(tagged, App) and tagged.op == "cbor":
         layers, tagged = layers + 1, tagged.args[0]
+    # no legal key identifier is refused: refusals of the functions on the info path that depend on the key id are evaluated for
+    # representative 32-bit ids (the guards touch the id only through comparisons with constants: a finite set of orderings)
+    from sa.teval import Raised as _Raised, Unknown as _Unknown, teval as _teval
+    R.rule("C06-D4c every key id is accepted", 2, "no raise on the encryption-info path is selected by a key id in 0 .. 2^32-1")
+    for q_ in ("Encryptor.generate_suit_encryption_info", "Encryptor.generate_encryption_info_and_encrypted_payload"):
+        f_ = repo.func(ENC, q_)
+        refused = []
+        for o_ in ev0.outcomes(f_):
+            if o_.kind != "raise" or not any(s_ == P("key_id") for c_ in o_.conds for s_ in subterms(c_)):
+                continue
+            for kid in (0, 1, 23, 24, 255, 256, 0xFFFF, 0x10000, 0x40000000, 0x7FFFFFFF, 0x80000000, 0x80000001, 0xFFFFFFFE, 0xFFFFFFFF):
+                try:
+                    if all(bool(_teval(c_, {P("key_id"): kid})) for c_ in o_.conds if any(s_ == P("key_id") for s_ in subterms(c_))):
+                        refused.append(kid)
+                except (_Unknown, _Raised):
+                    pass
+        R.check("C06-D4c every key id is accepted", not refused, q_, mod=f_.module, node=f_.node, function=ctx.fq(f_),
+                expected="every key identifier 0 .. 0xFFFFFFFF yields encryption info", found=f"refused: {[hex(k) for k in sorted(set(refused))][:4]}", key_extra=q_)
     R.rule("C06-D4 COSE_Encrypt shape", 9, "bstr-wrapped tag 96 [protected bstr, {5: iv}, nil, [[h'', {1: kw alg, 4: bstr(key id)}, cek]]]")
     R.check("C06-D4 COSE_Encrypt shape", layers == 2,
             "exactly two cbor2.dumps layers (tagged item, then byte-string wrap)", mod=fi_info.module, node=fi_info.node,
@@ -365,6 +383,15 @@ def cli_rules(ctx):
             if isinstance(node, ast.Call) and isinstance(node.func, ast.Attribute) and node.func.attr == meth:
                 for i, a in enumerate(node.args):
                     inner = a.args[0] if isinstance(a, ast.Call) and len(a.args) == 1 else a
+                    if isinstance(a, ast.Call) and not (len(a.args) == 1 and not a.keywords and (lambda r_: r_ and r_[0] == "class")(repo.resolve_expr(fi.module, a.func))):
+                        hs = [argname.hint(x) for x in ast.walk(a) if isinstance(x, (ast.Subscript, ast.Call)) and x is not a]
+                        hs = [h_ for h_ in hs if h_ in params]
+                        if hs and not (isinstance(a.func, ast.Attribute) and a.func.attr == "read"):
+                            n += 1
+                            R.fail("C06-D3c CLI plumbing", f"{fname}: {hs[0]}", mod=fi.module, node=node, function=ctx.fq(fi),
+                                   expected=f"kwargs[{hs[0]!r}] (or <Enum>(kwargs[{hs[0]!r}])) is passed on",
+                                   found=f"the option value goes through {ast.unparse(a.func)[:40]}(...), which may replace it", key_extra=f"wrap{hs[0]}")
+                            continue
                     h = argname.hint(inner)
                     if h in params and i < len(params):
                         n += 1
